@@ -48,7 +48,7 @@ def _transform(root: str, kind: str) -> None:
                         fut, _, src = src.partition("\n")
                         fut += "\n"
                     open(p, "w", encoding="utf-8").write(fut + "# header\n" * 7 + src)
-    elif kind == "rename-locals":
+    elif kind in ("rename-locals", "rename-opaque"):
         # every function-local variable (not parameters, not names shared with nested
         # scopes, not imports, not global/nonlocal) gets the suffix `_v`
         for dp, dn, fn in os.walk(os.path.join(root, PKG)):
@@ -56,13 +56,13 @@ def _transform(root: str, kind: str) -> None:
                 if f.endswith(".py"):
                     p = os.path.join(dp, f)
                     tree = ast.parse(open(p, encoding="utf-8").read())
-                    _rename_locals(tree)
+                    _rename_locals(tree, opaque=(kind == "rename-opaque"))
                     open(p, "w", encoding="utf-8").write(ast.unparse(tree) + "\n")
     else:
         raise ValueError(kind)
 
 
-def _rename_locals(tree) -> int:
+def _rename_locals(tree, opaque: bool = False) -> int:
     import ast
 
     SCOPES = (ast.FunctionDef, ast.AsyncFunctionDef, ast.Lambda, ast.ClassDef)
@@ -113,9 +113,16 @@ def _rename_locals(tree) -> int:
         outer_names |= {y.id for d in a.defaults + [k for k in a.kw_defaults if k is not None] for y in ast.walk(d) if isinstance(y, ast.Name)}
         todo = stored - skip
         default_ids = {id(y) for d in a.defaults + [k for k in a.kw_defaults if k is not None] for y in ast.walk(d)}
+        allnames = {y.id for y in ast.walk(fn) if isinstance(y, ast.Name)} | params
+        ren = {}
+        for k_, nm in enumerate(sorted(todo)):
+            new = f"q{k_}" if opaque else nm + "_v"
+            while new in allnames:
+                new += "_"
+            ren[nm] = new
         for x in body_nodes:
             if isinstance(x, ast.Name) and x.id in todo and id(x) not in default_ids:
-                x.id = x.id + "_v"
+                x.id = ren[x.id]
                 n += 1
     return n
 
